@@ -109,3 +109,127 @@ Proof.
   eexists. eexists. split; [vm_compute; reflexivity|]. split; [vm_compute; reflexivity|].
   split; [reflexivity|]. split; vm_compute; reflexivity.
 Qed.
+
+(* ====================================================================================================== *)
+(* Through automatic inference: Results.Auto() (decodeAuto for the first block, DecodeResult on the columns
+   it kept for every later block), over the real instances of model/Results.v — conflicts_b (ColumnType.Conflicts),
+   infer_target (the Inferable hook of every column kind) and infer_auto (ColAuto.Infer) — for every type tree
+   whose printed type ColAuto.Infer supports (model/AutoClass.v: [inferable]).  [zone] is time.LoadLocation,
+   [tl] strings.ToLower; both are arbitrary. *)
+From CH Require Import model.TypeStr model.Results model.AutoClass proofs.AutoRoundtripProofs.
+
+(* a printed type infers itself: the column ColAuto.Infer creates from Type() of an inferable column is that
+   column kind again, with the same parameters ([norm t] is [t] up to the names of Decimal leaves, see below) *)
+Theorem type_str_infers_itself : forall zone tl t, inferable zone t = true ->
+  infer_auto zone tl (type_str t) = Some (norm zone t).
+Proof. exact AutoRoundtripProofs.type_str_infers_itself. Qed.
+Print Assumptions type_str_infers_itself.
+
+(* the created column reports a type that does not conflict with the type it was created from, either way round *)
+Theorem norm_no_conflict : forall zone (tl : bytes -> bytes) t, inferable zone t = true ->
+  conflicts_b (type_str t) (type_str (norm zone t)) = false /\
+  conflicts_b (type_str (norm zone t)) (type_str t) = false.
+Proof. exact AutoRoundtripProofs.norm_no_conflict. Qed.
+Print Assumptions norm_no_conflict.
+
+(* ... and encodes, decodes, resets and is read exactly as the original column *)
+Theorem norm_same_codec : forall zone (tl : bytes -> bytes) t, inferable zone t = true ->
+  (forall b d, enc b (norm zone t) d = enc b t d) /\ enc_state (norm zone t) = enc_state t /\
+  (forall b n s, dec b (norm zone t) n s = dec b t n s) /\ dec_state (norm zone t) = dec_state t /\
+  empty (norm zone t) = empty t /\
+  (forall d, rows (norm zone t) d = rows t d) /\ (forall d i, row (norm zone t) d i = row t d i).
+Proof. exact AutoRoundtripProofs.norm_same_codec. Qed.
+Print Assumptions norm_same_codec.
+
+(* where [norm] is not the identity: a column whose type is spelled Decimal(P, S) or DecimalN(S) comes back as
+   the DecimalN column of the same width, whose Type() is the bare DecimalN; every other fixed-width leaf
+   (DateTime('zone'), DateTime64(p, 'zone'), Interval kinds, generated kinds) comes back under its own name *)
+Theorem norm_leaf : forall zone name w, inferable zone (TFix name w) = true ->
+  norm zone (TFix name w) = TFix name w \/
+  exists T go, In (T, go) decimal_n_cols /\ norm zone (TFix name w) = TFix T w /\
+               (exists pr sc, name = decimal_str pr sc) \/
+               In (T, go) decimal_n_cols /\ norm zone (TFix name w) = TFix T w /\ exists sc, name = decimal_n_str T sc.
+Proof. exact AutoRoundtripProofs.norm_leaf. Qed.
+Print Assumptions norm_leaf.
+
+(* a later block: the column ColAuto created adopts the printed type again *)
+Theorem norm_infer_target : forall zone tl t, inferable zone t = true ->
+  infer_target zone tl (norm zone t) (type_str t) = Some (norm zone t).
+Proof. exact AutoRoundtripProofs.norm_infer_target. Qed.
+Print Assumptions norm_infer_target.
+
+(* first block, every revision, both builds on both sides, any trailing bytes: an encoded block of inferable
+   column types decodes through Results.Auto() to the same block info, column count, row count, names, types
+   (up to norm) and contents *)
+Theorem block_roundtrip_auto : forall zone tl b b' v i nrows cols bs rest,
+  nrows <= max_rows -> (Z.of_nat (length cols) <= maxColumnsInBlock)%Z -> in_i32 (bi_bucket i) ->
+  Forall (col_ok_auto zone nrows) cols ->
+  encode_block b v i nrows cols = Some bs ->
+  decode_block conflicts_b (infer_target zone tl) (infer_auto zone tl) true b' v [] (bs ++ rest)
+  = Ok ((if gate v FeatureBlockInfo then i else blank_block_info),
+        Z.of_nat (length cols), Z.of_N nrows, map (norm_col zone) cols) rest.
+Proof. exact AutoRoundtripProofs.block_roundtrip_auto. Qed.
+Print Assumptions block_roundtrip_auto.
+
+(* every later block of the same schema, against the columns an earlier block left in the Results (whatever
+   they hold): the same statement; goes through Results.DecodeResult with the real Conflicts and Infer hooks *)
+Theorem block_roundtrip_auto_next : forall zone tl b b' v i nrows cols ts bs rest,
+  nrows <= max_rows -> (Z.of_nat (length cols) <= maxColumnsInBlock)%Z -> in_i32 (bi_bucket i) ->
+  Forall (col_ok_auto zone nrows) cols -> Forall2 (holds zone) cols ts -> cols <> [] ->
+  encode_block b v i nrows cols = Some bs ->
+  decode_block conflicts_b (infer_target zone tl) (infer_auto zone tl) true b' v ts (bs ++ rest)
+  = Ok ((if gate v FeatureBlockInfo then i else blank_block_info),
+        Z.of_nat (length cols), Z.of_N nrows, map (norm_col zone) cols) rest.
+Proof. exact AutoRoundtripProofs.block_roundtrip_auto_next. Qed.
+Print Assumptions block_roundtrip_auto_next.
+
+(* at the level of Go row values: columns holding the rows [snd s] (built by any history of appends), prepared
+   and encoded by EncodeBlock, come out of Results.Auto() as columns whose accessors report exactly those rows
+   under the caller's names *)
+Theorem values_roundtrip_auto : forall zone tl b b' v i nrows srcs cols bs rest,
+  nrows <= max_rows -> (Z.of_nat (length cols) <= maxColumnsInBlock)%Z -> in_i32 (bi_bucket i) ->
+  Forall2 (src_ok zone nrows) srcs cols ->
+  encode_block b v i nrows cols = Some bs ->
+  exists cols',
+    decode_block conflicts_b (infer_target zone tl) (infer_auto zone tl) true b' v [] (bs ++ rest)
+    = Ok ((if gate v FeatureBlockInfo then i else blank_block_info),
+          Z.of_nat (length cols), Z.of_N nrows, cols') rest /\
+    Forall2 (read_back zone nrows) srcs cols'.
+Proof. exact AutoRoundtripProofs.values_roundtrip_auto. Qed.
+Print Assumptions values_roundtrip_auto.
+
+(* non-vacuity: a five-column block — Array(Nullable(DateTime64(3, 'UTC'))), Enum8('x' = 1, 'y y' = 2),
+   Array(LowCardinality(String)), Decimal(9, 2) (comes back as Decimal32) and Map(String, String) — the deepest
+   trees ColAuto.Infer supports (it has no Tuple, no Map other than String/String, no Array(Array), no
+   Array(Enum)) is in the class, and round-trips by computation at a revision with block info and custom
+   serialization flag, first and second block, Safe encoder against Unsafe decoder *)
+Definition ex_zone (q : bytes) : option bytes := if bytes_eqb q (s2b "UTC") then Some (s2b "UTC") else None.
+Definition ex_tl (s : bytes) : bytes := s.
+Definition ex_dt64 : ty := TFix (s2b "DateTime64(3, 'UTC')") 8.
+Definition ex_enum : ty := TEnum (s2b "Enum8('x' = 1, 'y y' = 2)") 1 [(s2b "x", 1%Z); (s2b "y y", 2%Z)].
+Definition ex_auto_cols : list Block.col :=
+  [ {| c_name := s2b "ts" ; c_ty := TArr (TNullable ex_dt64) ;
+       c_data := DArr [2; 2; 3] (DNullable [0; 1; 0] (DFix [1700000000123; 0; 5])) |} ;
+    {| c_name := s2b "e" ; c_ty := ex_enum ; c_data := DEnum [s2b "y y"; s2b "x"; s2b "x"] [2; 1; 1] |} ;
+    {| c_name := s2b "tags" ; c_ty := TArr (TLowCard TStr) ;
+       c_data := DArr [1; 1; 3] (DLowCard [VB [97]; VB [98]; VB [97]] (DBytes [[97]; [98]]) 0 [0; 1; 0]) |} ;
+    {| c_name := s2b "d" ; c_ty := TFix (s2b "Decimal(9, 2)") 4 ; c_data := DFix [12345; 0; 4294967295] |} ;
+    {| c_name := s2b "m" ; c_ty := TMap TStr TStr ;
+       c_data := DMap [1; 1; 2] (DBytes [[107]; [107; 50]]) (DBytes [[118]; []]) |} ].
+Example c01_auto_nonvacuous :
+  forallb (fun c => inferable ex_zone (c_ty c) && wf_ty (c_ty c)) ex_auto_cols = true /\
+  map (fun c => b2s (type_str (norm ex_zone (c_ty c)))) ex_auto_cols
+  = ["Array(Nullable(DateTime64(3, 'UTC')))"; "Enum8('x' = 1, 'y y' = 2)"; "Array(LowCardinality(String))";
+     "Decimal32"; "Map(String, String)"]%string /\
+  map (fun c => prepare (c_ty c) (c_data c)) ex_auto_cols = map (fun c => Some (c_data c)) ex_auto_cols /\
+  exists bs, encode_block Safe 54460 {| bi_overflows := true ; bi_bucket := (-1)%Z |} 3 ex_auto_cols = Some bs /\
+    decode_block conflicts_b (infer_target ex_zone ex_tl) (infer_auto ex_zone ex_tl) true Unsafe 54460 [] (bs ++ [7])
+    = Ok ({| bi_overflows := true ; bi_bucket := (-1)%Z |}, 5%Z, 3%Z, map (norm_col ex_zone) ex_auto_cols) [7] /\
+    decode_block conflicts_b (infer_target ex_zone ex_tl) (infer_auto ex_zone ex_tl) true Unsafe 54460
+                 (map (fun c => {| c_name := c_name c ; c_ty := norm ex_zone (c_ty c) ; c_data := empty (c_ty c) |}) ex_auto_cols)
+                 (bs ++ [7])
+    = Ok ({| bi_overflows := true ; bi_bucket := (-1)%Z |}, 5%Z, 3%Z, map (norm_col ex_zone) ex_auto_cols) [7].
+Proof.
+  split; [vm_compute; reflexivity|]. split; [vm_compute; reflexivity|]. split; [vm_compute; reflexivity|].
+  eexists. split; [vm_compute; reflexivity|]. split; vm_compute; reflexivity.
+Qed.
